@@ -11,7 +11,7 @@
      stored e0        what the repository still holds of e0's trees is what was written (trees may be missing)
    chunks, tid, the store and the index are universally quantified. *)
 From Verif.Base Require Import Tactics.
-From Verif.C11 Require Import Extracted Model Proofs Spec Proofs2 Proofs3 Examples.
+From Verif.C11 Require Import Extracted Model Proofs Spec Proofs2 Proofs3 ModelIter ProofsIter ProofsPipe ProofsBracket ModelSelect ProofsSelect Examples.
 Local Open Scope N_scope.
 
 (* Core: for ANY parent state — any number of trees, any cursor positions, any stack — and any
@@ -147,3 +147,132 @@ Theorem inode_clause_is_inverted_wrt_its_name : forall pi i,
   match_inode_clause true pi i = ((pi =? 0) || (i =? 0) || (pi =? i)).
 Proof. exact inode_clause_as_written. Qed.
 Print Assumptions inode_clause_is_inverted_wrt_its_name.
+
+(* ------------------------------------------------------------------------------------------------
+   From the PATH STREAM of the source (ModelIter.v).  `titer` = TreeIterator (archiver/tree.rs) as a
+   function from the item list Archiver::archive feeds in (path of the directory itself for
+   directories, of the containing directory otherwise) to NewTree / EndTree / Other items, with at
+   most `fuel` calls of next(); `wsrc` = the walked source as a forest whose directories are explicit
+   (the walker yields an item) or implicit (common path prefixes: root components above the backup
+   paths, common parents of several backup paths); `stream_of` = its directory walk; `arun` = the
+   items one by one through Parent::process, FileArchiver::process, TreeArchiver::add;
+   `backup_stream` = titer, arun, finalize. *)
+
+(* TreeIterator flattens: on the walk of a well-formed forest located at an anchor without Normal
+   component (nothing, `/`, `.`) it yields exactly NewTree .. EndTree around every directory —
+   synthesising the implicit ones once — and Other for everything else, in walk order. *)
+Theorem tree_iterator_is_flattening : forall D anchor (ws : list (wsrc D)) fuel,
+  nonnormal anchor = true -> allP (wfw D) ws -> NoDup (dir_comps D ws) ->
+  (length (flat_map (events_of D) ws) < fuel)%nat ->
+  titer D fuel (flat_map (stream_of D anchor) ws) = Some (flat_map (events_of D) ws).
+Proof. exact tree_iterator_flattening_lemma. Qed.
+Print Assumptions tree_iterator_is_flattening.
+
+(* ... hence its items are well bracketed: no EndTree without an open NewTree, nothing left open. *)
+Theorem tree_iterator_well_bracketed : forall D anchor (ws : list (wsrc D)) fuel,
+  nonnormal anchor = true -> allP (wfw D) ws -> NoDup (dir_comps D ws) ->
+  (length (flat_map (events_of D) ws) < fuel)%nat ->
+  exists evs, titer D fuel (flat_map (stream_of D anchor) ws) = Some evs /\ balanced D 0 evs = true.
+Proof. exact walk_well_bracketed_lemma. Qed.
+Print Assumptions tree_iterator_well_bracketed.
+
+(* Well bracketed on EVERY item stream whose paths share one anchor (anchor ++ Normal components) —
+   sorted or not, repeated entries, any nodes — whenever the iterator is exhausted within the fuel. *)
+Theorem tree_iterator_well_bracketed_on_any_stream : forall D anchor, nonnormal anchor = true ->
+  forall (items : list (item D)) fuel evs, anchored D anchor items ->
+  titer D fuel items = Some evs -> balanced D 0 evs = true.
+Proof. exact any_stream_well_bracketed_lemma. Qed.
+Print Assumptions tree_iterator_well_bracketed_on_any_stream.
+
+(* The common anchor is needed: after `/1`, an item with the relative path `2` makes the iterator
+   yield EndTree for ever (pop() fails, the path stays `/`); the backup then fails in TreeArchiver. *)
+Theorem tree_iterator_mixed_anchors_do_not_end :
+  titer D_ex 50 [{| i_path := [CRoot; CNormal 1]; i_node := d2; i_open := None |};
+                 {| i_path := [CNormal 2]; i_node := d5; i_open := None |}] = None.
+Proof. exact mixed_anchors_diverge. Qed.
+Print Assumptions tree_iterator_mixed_anchors_do_not_end.
+
+(* The item-by-item pipeline on the bracketed items of a forest does what `arch_list` does by
+   structural recursion (whenever that does not panic): same Parent state, same nodes, stack empty. *)
+Theorem pipeline_refines_arch : forall D chunks tid o st ix (ws : list (wsrc D)) P0 P' ns,
+  arch_list D chunks tid o st ix (map (to_src D) ws) P0 = Some (P', ns) ->
+  arun D chunks tid o st ix {| a_parent := P0; a_tree := []; a_stack := [] |} (flat_map (events_of D) ws)
+  = Some {| a_parent := P'; a_tree := ns; a_stack := [] |}.
+Proof. exact pipeline_refines_arch_lemma. Qed.
+Print Assumptions pipeline_refines_arch.
+
+(* The property from the path stream: TreeIterator, then every item through Parent::process,
+   FileArchiver::process and TreeArchiver::add, then finalize — with parents and forced give the
+   tree of the backup that reads every file. *)
+Theorem parent_equals_full_from_path_stream : forall D chunks tid o st ix anchor (ws : list (wsrc D)) fuel (parents : list id),
+  nonnormal anchor = true -> allP (wfw D) ws -> NoDup (dir_comps D ws) ->
+  (length (flat_map (events_of D) ws) < fuel)%nat ->
+  allP (wf D) (map (to_src D) ws) ->
+  (forall pid T, In pid parents -> st pid = Some T ->
+     exists cs0, T = map (read_all D chunks tid) cs0 /\ allP (wf D) cs0 /\ allP (stored D chunks tid st) cs0 /\
+                 allP (fun x1 => forall x0, In x0 cs0 -> sname x0 = sname x1 -> visible D chunks o x1 x0) (map (to_src D) ws)) ->
+  backup_stream D chunks tid o st ix fuel parents false (flat_map (stream_of D anchor) ws)
+    = Some (tid (map (read_all D chunks tid) (map (to_src D) ws))) /\
+  backup_stream D chunks tid o st ix fuel parents true (flat_map (stream_of D anchor) ws)
+    = Some (tid (map (read_all D chunks tid) (map (to_src D) ws))).
+Proof. exact parent_equals_full_stream_lemma. Qed.
+Print Assumptions parent_equals_full_from_path_stream.
+
+Theorem path_stream_examples :
+  (titer D_ex 20 (flat_map (stream_of D_ex [CRoot]) ws_two_paths)
+   = Some [EvNew (synth 1) 1; EvNew d2 2; EvOther f3 (Some [43]); EvEnd;
+           EvNew d5 5; EvOther f4 (Some [44]); EvNew (mk 6 TDir 0 10 10 76) 6; EvEnd; EvEnd; EvEnd]) /\
+  (allP (wfw D_ex) ws_two_paths /\ NoDup (dir_comps D_ex ws_two_paths)) /\
+  (map (to_src D_ex) ws1 = cs1 /\
+   backup_stream D_ex chunks_ex tid_ex o_ex st_ex ix_all 20 [root0] false (flat_map (stream_of D_ex [CRoot]) ws1) = Some (tid_ex (map ra cs1)) /\
+   backup_stream D_ex chunks_ex tid_ex o_ex st_ex ix_all 20 [root0] true (flat_map (stream_of D_ex [CRoot]) ws1) = Some (tid_ex (map ra cs1))).
+Proof. exact (conj two_paths_items (conj two_paths_wellformed stream_backup_equals_full)). Qed.
+Print Assumptions path_stream_examples.
+
+(* ------------------------------------------------------------------------------------------------
+   Parent selection (ModelSelect.v): `select_with pick force ids crit me repo` = get_parent for the
+   request forms of the backup command; `pick` = any function returning a snapshot of maximal time
+   (k_smallest_by leaves ties open); the executable `select` uses the first one. *)
+
+(* Whatever is selected is a snapshot of the repository; without explicit ids it belongs to the
+   group of the new snapshot and no snapshot of that group is newer; with ids it is a requested one.
+   (The code has no upper bound on the time: a snapshot newer than the backup's own time can be chosen.) *)
+Theorem selected_parent_is_eligible : forall pick, (forall l, latest_ok l (pick l)) ->
+  forall force ids c me repo s, In s (select_with pick force ids c me repo) ->
+    force = false /\ In s repo /\
+    match ids with
+    | [] => group_matches c me s = true /\
+            forall s', In s' repo -> group_matches c me s' = true -> s_time s' <= s_time s
+    | _ => In (s_id s) ids
+    end.
+Proof. exact selected_eligible_lemma. Qed.
+Print Assumptions selected_parent_is_eligible.
+
+Theorem executable_latest_is_a_latest : forall l, latest_ok l (latest_first l).
+Proof. exact latest_first_ok. Qed.
+Print Assumptions executable_latest_is_a_latest.
+
+(* No selection can change the tree: if every snapshot of the repository whose tree loads was
+   produced by a correct backup of a state w.r.t. which the source satisfies the premise, then for
+   every force / explicit ids / group criterion / tie-break the command yields the tree of the
+   backup that reads every file. *)
+Theorem selection_never_affects_tree : forall D chunks tid po st ix pick, (forall l, latest_ok l (pick l)) ->
+  forall anchor (ws : list (wsrc D)) fuel force ids c me repo,
+  nonnormal anchor = true -> allP (wfw D) ws -> NoDup (dir_comps D ws) ->
+  (length (flat_map (events_of D) ws) < fuel)%nat ->
+  allP (wf D) (map (to_src D) ws) ->
+  repo_premise D chunks tid po st repo (map (to_src D) ws) ->
+  backup_selected D chunks tid po st ix pick force ids c me repo fuel (flat_map (stream_of D anchor) ws)
+  = Some (tid (map (read_all D chunks tid) (map (to_src D) ws))).
+Proof. exact selection_never_affects_tree_lemma. Qed.
+Print Assumptions selection_never_affects_tree.
+
+(* What a backup writes: directory entries carry a subtree, regular files a content list.  Parent
+   entries violating this (matched directory without subtree: `unwrap` panics; file with
+   `content: null`: handed on without content) therefore never stem from a backup by the library. *)
+Theorem library_trees_have_subtrees_and_contents : forall D chunks tid (e : src D), wf D e ->
+  (n_type (read_all D chunks tid e) = TDir -> n_subtree (read_all D chunks tid e) <> None) /\
+  (n_type (read_all D chunks tid e) = TFile -> n_content (read_all D chunks tid e) <> None).
+Proof. exact library_nodes_lemma. Qed.
+Print Assumptions library_trees_have_subtrees_and_contents.
+
